@@ -1,5 +1,7 @@
 ---- MODULE InstallMC ----
 EXTENDS Install
-Files2 == <<"SKILL.md", "references/A.md">>
-Files4 == <<"SKILL.md", "references/A.md", "references/B.md", "references/C.md">>
+Files2 == {"SKILL.md", "references/A.md"}
+Files3 == {"SKILL.md", "references/A.md", "references/B.md"}
+PriorsMC == {[content |-> "absent", mode |-> ""], [content |-> "old", mode |-> "0644"], [content |-> "old", mode |-> "0600"],
+             [content |-> "new", mode |-> "0644"]}
 ====
